@@ -80,3 +80,7 @@ package fsstore
 
 //@ func CheckAndMakeBasepath(basepath) (err)
 //@   assigns nothing
+
+// Any further method of the store is read-only unless it has a contract of its own saying otherwise
+// (a new write path must state how it commits: C17/C18).
+//@ sweep[C17,C18] assigns nothing: Store
